@@ -7,7 +7,13 @@ Event alphabets (shared with coq/Model/FLock.v and coq/Model/Lock.v):
                ["tick", d_ms]  ["die", [c, ...]]
   S3 lock      ["call", c, "acquire", timeout_ms]  ["call", c, "is_held"]  ["call", c, "release"]
                ["step", c, fault, jitter_ms]  ["renew", c, fault]  ["tick", d_ms]  ["die", c]
+               ["env", zone_s, rep_s | null, flavour]
                fault in {"none", "transient", "permanent", "lost"}
+               env: the ENVIRONMENT from here on -- the process's local zone becomes `zone_s` seconds east of
+               UTC (os.environ["TZ"] + time.tzset(); also what a DST switch does), and head / get replies
+               render LastModified as an aware datetime at utcoffset rep_s (tzinfo class per `flavour`:
+               "std" datetime.timezone, "dateutil" tzutc / tzoffset as botocore does) or, rep_s null, naive.
+               The model sees zone and rendering (Lock.v SEnv), not the flavour.
 
 Each event yields exactly one observation (obs..., result) in the same shape the model prints.
 """
@@ -23,7 +29,7 @@ from typing import Any, Dict, List, Optional, Tuple
 
 from .coop import Clock, Scheduler
 from .fakes3_lock import FakeS3Lock
-from .lockshims import FdTable, patched_file_lock, patched_lock_provider
+from .lockshims import FdTable, patched_file_lock, patched_lock_provider, set_process_zone
 
 
 POLL_MS = 10
@@ -270,6 +276,8 @@ class S3Run:
         self.superseded: Dict[int, bool] = {}         # client -> its object was overwritten by another owner
         self.late_delete = False
         logging.disable(logging.CRITICAL)
+        self._saved_tz = os.environ.get("TZ")
+        self._zone_touched = False
         self._ctx = contextlib.ExitStack()
         self.uni = self._ctx.enter_context(patched_lock_provider(self.sched))
         self._closed = False
@@ -280,10 +288,18 @@ class S3Run:
         from datashard.lock_provider import S3LockProvider
         p = self.prov.get(c)
         if p is None:
-            p = self.prov[c] = S3LockProvider(self.s3, "bucket", "t/.locks/metadata.lock", timeout=float(timeout_ms),
+            p = self.prov[c] = S3LockProvider(self.s3, "bucket", "t/.locks/metadata.lock", timeout=self.timeout_s(timeout_ms),
                                               lease_seconds=self.lease_s)
             self.ids[p.lock_id] = c
         return p
+
+    @staticmethod
+    def timeout_s(timeout_ms: int) -> float:
+        """The timeout handed to the library, in seconds.  Clock readings are whole milliseconds and epoch-second
+        floats carry about 2e-7 s of rounding, so `t - start >= timeout` is decided half a millisecond below the
+        intended whole-millisecond bound: for integer readings it is the same predicate as the model's
+        `t - start >= timeout_ms`, and no rounding can flip it."""
+        return (int(timeout_ms) - 0.5) / 1000.0
 
     def owner_of(self, body: Optional[str]) -> Optional[int]:
         return None if body is None else self.ids.get(body, -1)
@@ -300,6 +316,11 @@ class S3Run:
             self.dead.add(c)
             self.sched.kill(c)
             out = ("die", "SNone")
+        elif kind == "env":
+            self._zone_touched = True
+            set_process_zone(int(ev[1]))
+            self.s3.render = (None if ev[2] is None else int(ev[2]), ev[3] if len(ev) > 3 else "std")
+            out = ("env", "SNone")
         else:
             c = ev[1]
             if c in self.dead:
@@ -327,7 +348,7 @@ class S3Run:
         p = self.provider(c, int(arg) if what == "acquire" else 30000)
         info = {"kind": what, "reads": [], "t_call": self.sched.clock.now}
         if what == "acquire":
-            p.timeout = float(int(arg))
+            p.timeout = self.timeout_s(int(arg))
             info["timeout"] = int(arg)
             fn = p.acquire
         elif what == "is_held":
@@ -505,6 +526,12 @@ class S3Run:
         self._closed = True
         self.sched.close()
         self._ctx.close()
+        if self._zone_touched:
+            set_process_zone(None)
+            if self._saved_tz is not None:
+                os.environ["TZ"] = self._saved_tz
+                import time as _t
+                _t.tzset()
 
 
 def run_s3(events: List[List[Any]], lease_s: int = 60) -> S3Run:
